@@ -365,10 +365,10 @@ Theorem subtask_gen_spec : forall extra o so o',
              getattr o' "discount_rate" = Some g).
 Proof.
   intros extra o so o' H. unfold sub_task_gen in H.
-  destruct (getattr o "reward") as [[| | | | |rw|]|] eqn:Hrw; try discriminate.
+  destruct (getattr o "reward") as [[| | | | |rw| |]|] eqn:Hrw; try discriminate.
   cbv zeta in H.
   destruct (so_include_abs so) eqn:Hinc.
-  - destruct (getattr o "is_absorbing") as [[| | | | | |ab0]|] eqn:Hab0; try discriminate.
+  - destruct (getattr o "is_absorbing") as [[| | | | | |ab0|]|] eqn:Hab0; try discriminate.
     destruct (subtask_aux _ _ _ _ _ _ H) as (H1 & H2 & H3 & H4 & H5 & H6 & H7).
     split; [exact H1|]. split; [exact H2|].
     split; [exists rw; split; [reflexivity|exact H3]|].
@@ -382,6 +382,58 @@ Proof.
     split; [|split; [exact H5|split; [exact H6|exact H7]]].
     eexists. split; [exact H4|]. intro s. simpl. split; [intro Hm; left; exact Hm|].
     intros [Hm|[E _]]; [exact Hm|discriminate].
+Qed.
+
+(* --- tabular views of the derived MDP ------------------------------------ *)
+
+Lemma cached_fresh : forall o attr c, inst o = [] -> cached o attr c = c.
+Proof. intros o attr c H. unfold cached. rewrite H. reflexivity. Qed.
+
+(* Whatever the base object has cached (because it was used: matrices touched, planned on,
+   reachability run), the augmented MDP / sub-task computes every tabular view from ITS OWN
+   components and lists: no cache entry of the base is visible through it. *)
+Theorem derived_views_own : forall extra o ov o' fuel,
+  augment_gen extra o ov = Some o' ->
+  view_tf o' = compute_tf o' /\ view_am o' = compute_am o' /\ view_rf o' = compute_rf o' /\
+  view_dead o' = compute_dead o' /\ view_absvec o' = compute_absvec o' /\
+  view_s0 o' = compute_s0 o' /\ view_reachable fuel o' = compute_reachable fuel o'.
+Proof.
+  intros extra o ov o' fuel H. destruct (augment_fresh_instance _ _ _ _ H) as (Hi & _).
+  repeat split; apply cached_fresh; exact Hi.
+Qed.
+
+(* using (touching) an object does not change what getattr gives for any attribute that is
+   not a cache entry, so augment of a used base = augment of the fresh base on components *)
+Lemma assoc_app_none : forall (A : Type) k (l1 l2 : list (key * A)),
+  assoc k l2 = None -> assoc k (l1 ++ l2) = assoc k l1.
+Proof. intros A k l1 l2 H. rewrite assoc_app, H. destruct (assoc k l1); reflexivity. Qed.
+
+Corollary subtask_views_own : forall extra o so o' fuel,
+  sub_task_gen extra o so = Some o' ->
+  view_rf o' = compute_rf o' /\ view_absvec o' = compute_absvec o' /\ view_tf o' = compute_tf o' /\
+  view_reachable fuel o' = compute_reachable fuel o'.
+Proof.
+  intros extra o so o' fuel H. unfold sub_task_gen in H.
+  destruct (getattr o "reward") as [[| | | | |rw| |]|]; try discriminate. cbv zeta in H.
+  destruct (so_include_abs so).
+  - destruct (getattr o "is_absorbing") as [[| | | | | |ab0|]|]; try discriminate.
+    destruct (derived_views_own _ _ _ _ fuel H) as (A & _ & B & _ & C & _ & D). tauto.
+  - destruct (derived_views_own _ _ _ _ fuel H) as (A & _ & B & _ & C & _ & D). tauto.
+Qed.
+
+(* non-vacuity: a USED base (caches filled; state 0 absorbing implicitly, state 1 not) augmented
+   with is_absorbing := (s = 1): the derived absorbing vector reflects the override, not the cache *)
+Definition witness_tab : obj :=
+  mkObj (inst witness_obj ++ [("state_list", VNats [O; 1%nat]); ("action_list", VNats [O])])
+        [mkClass tabular_name []; witness_class].
+Example derived_views_nonvacuous :
+  view_absvec (touch 5 witness_tab) = Some (TB1 [true; false]) /\
+  exists o', augment (touch 5 witness_tab) [("is_absorbing", VAbs (fun s => Nat.eqb s 1))] = Some o' /\
+             view_absvec o' = Some (TB1 [true; true]) /\
+             getattr o' "_cached_absorbing_state_vec" = None.
+Proof.
+  split; [vm_compute; reflexivity|]. eexists. split; [vm_compute; reflexivity|].
+  split; vm_compute; reflexivity.
 Qed.
 
 (* ================================================================== *)
@@ -947,8 +999,8 @@ Lemma option_run_on_ret_inv : forall o term ms ch s0 r,
 Proof.
   intros o term ms ch s0 r H. unfold option_run_on in H.
   destruct (augment o [("is_absorbing", VAbs term)]) as [sub|]; [|discriminate].
-  destruct (getattr sub "is_absorbing") as [[| | | | | |ab]|]; try discriminate.
-  destruct (getattr sub "reward") as [[| | | | |rw|]|]; try discriminate.
+  destruct (getattr sub "is_absorbing") as [[| | | | | |ab|]|]; try discriminate.
+  destruct (getattr sub "reward") as [[| | | | |rw| |]|]; try discriminate.
   destruct (Nat.leb ms (sim_len (policy_run_on ab rw ch ms 0 s0))); [discriminate|].
   inversion H. exists ab, rw. reflexivity.
 Qed.
@@ -1090,7 +1142,7 @@ Theorem smdp_outcome_empirical : forall m s op streams d,
 Proof.
   intros m s op streams d Hn H. unfold smdp_nstr in H.
   destruct (run_simulations (sm_mdp m) op s (sm_n m) streams) as [sims| |] eqn:Hsims; try discriminate.
-  destruct (getattr (sm_mdp m) "discount_rate") as [[gamma| | | | | |]|] eqn:Hg; try discriminate.
+  destruct (getattr (sm_mdp m) "discount_rate") as [[gamma| | | | | | |]|] eqn:Hg; try discriminate.
   inversion H; subst d; clear H.
   destruct (run_simulations_ret _ _ _ _ _ _ Hsims) as (Hlen & Hnth).
   exists gamma, sims.
@@ -1123,7 +1175,7 @@ Theorem smdp_outcome_raises : forall m s op streams,
 Proof.
   intros m s op streams H. unfold smdp_nstr in H.
   destruct (run_simulations (sm_mdp m) op s (sm_n m) streams) as [sims| |] eqn:Hsims; try discriminate.
-  - destruct (getattr (sm_mdp m) "discount_rate") as [[gamma| | | | | |]|]; discriminate.
+  - destruct (getattr (sm_mdp m) "discount_rate") as [[gamma| | | | | | |]|]; discriminate.
   - exact (run_simulations_maxsteps _ _ _ _ _ Hsims).
 Qed.
 
